@@ -37,7 +37,10 @@ def main(argv=None):
 
     from . import core, hooks
     mod = importlib.import_module("smverif.props." + a.prop.lower())
-    installed = hooks.install(getattr(mod, "MONITORS", ("math", "route")))
+    mons = tuple(getattr(mod, "MONITORS", ("math", "route")))
+    if a.shard == 0 and not a.replay:
+        mons = mons + ("cov",)
+    installed = hooks.install(mons)
     ctx = core.Ctx(a.prop, a.tier, a.seed, a.shard, a.nshards, mod)
     ctx.installed = sorted(installed)
     if a.replay:
@@ -51,6 +54,11 @@ def main(argv=None):
         mod.run_shard(ctx)
         rep = ctx.report()
     rep["installed"] = sorted(installed)
+    if "cov" in installed:
+        try:
+            rep["line_coverage"] = hooks.coverage_report()
+        except Exception as e:
+            rep["line_coverage_error"] = repr(e)
     rep["lib_file"] = lib_file
     rep["hashseed"] = os.environ.get("PYTHONHASHSEED")
     dig_path = a.out + ".digests"
